@@ -4,10 +4,10 @@
 # with the patch: build OK, existing tests pass, demo FAILS; without: demo passes.
 set -u
 ID=$1; DIR=$2; RUN=${3:-TestSeed}
-W=/tmp/seed/$ID; OUT=/tmp/seed/out-$ID
+W=/tmp/seed/$ID; OUT=/tmp/seed/out${SEEDROUND:-}-$ID
 export GOFLAGS=-mod=mod GOPROXY=off GOSUMDB=off GOTOOLCHAIN=local
 cd $W && git checkout -q -- . && git clean -fdq
-DEMO=$(ls $OUT/zz_seed_*_test.go | head -1)
+DEMO=$(ls $OUT/zz_seed*_test.go | head -1)
 git apply $OUT/patch.diff || { echo "$ID: PATCH DOES NOT APPLY"; exit 1; }
 go build ./... || { echo "$ID: BUILD FAILS"; exit 1; }
 if go test -count=1 -vet=off ./... > $OUT/verify_suite.log 2>&1; then echo "$ID: existing suite passes with the change"; else echo "$ID: EXISTING SUITE FAILS"; tail -5 $OUT/verify_suite.log; fi
